@@ -144,7 +144,7 @@ def run(res, tier, seed):
             else:
                 g = J.copt(J.entries_term(r["val"], J.rvalue_term)) if r.get("val") else "None"
                 mitems.append((i, f"({jt}, {g})"))
-        bad_v = J.run_cases("c10v", "dec_case", "dec_ok", [t for _, t in vitems])
+        bad_v = J.run_cases("c10v", "dec_case", "dec_ok", [t for _, t in vitems], shard=150 if quick else 400)
         bad_m = J.run_cases("c10m", "decmap_case", "decmap_ok", [t for _, t in mitems])
         bad_w = J.run_cases("c10w", "dec_case", "dec_wf_ok", [t for _, t in vitems[:400]])
         res.cov["correspondence"] = {"decoder_value_cases": len(vitems), "decoder_map_cases": len(mitems),
